@@ -99,7 +99,7 @@ def renderElem (db : Db) : Elem → Str
 def objList (j : Json) (k : String) : Except String (List (String × Json)) := do
   pure (← (← j.getObjVal? k).getObj?).toList
 
-def envOf (db : Db) (j : Json) : Except String Env := do
+def envOf (db : Db) (j : Json) : Except String Setup.Env := do
   let recs ← (← objList j "recs").mapM fun (k, v) => do pure (Str.ofString k, Str.ofString (← v.getStr?))
   let dirs ← (← objList j "dirs").mapM fun (k, v) => do
     pure (Str.ofString k, tagElem db (Str.ofString (← v.getStr?)))
@@ -113,7 +113,7 @@ def envOf (db : Db) (j : Json) : Except String Env := do
 def mkObjS {β : Type} (l : List (Str × β)) (f : β → Json) : Json :=
   Json.mkObj (l.map fun (k, v) => (Str.toString k, f v))
 
-def envToJson (db : Db) (e : Env) : Json :=
+def envToJson (db : Db) (e : Setup.Env) : Json :=
   let el := fun x => ofStr (renderElem db x)
   Json.mkObj [("recs", mkObjS e.recs ofStr), ("dirs", mkObjS e.dirs el),
               ("paths", mkObjS e.paths (fun l => Json.arr (l.map el).toArray)), ("vars", mkObjS e.vars el)]
